@@ -95,7 +95,7 @@ def walk_case(ctx, case) -> None:
         want = canonical(cache, n, values, comp, K)
         ctx.count("visits_compared")
         state["i"] += 1
-        if case.get("_fresh_budget", [0])[0] > 0 and ctx.rng.random() < (0.3 if n >= 7 else 0.02):
+        if case.get("_fresh_budget", [0])[0] > 0 and (case.get("_force_fresh") or ctx.rng.random() < (0.3 if n >= 7 else 0.02)):
             case["_fresh_budget"][0] -= 1
             fp = fresh_process_table(n, values, comp, K)
             if fp is None:
@@ -202,6 +202,13 @@ def run(ctx) -> None:
     rng = ctx.rng
     quick = ctx.tier == "quick"
     comps = list(BOUNDS.keys())
+    # guaranteed minimum, independent of the time budget: histories with stale garbage and fresh-interpreter tables
+    for comp0 in ("superadditive_cached", "sam_apx_1"):
+        v0 = gen.sa_game(rng, 4, "int")[0] if comp0.startswith("super") else gen.sam_game(rng, 4, "sam_int")[0]
+        K0 = gen.random_knowledge_set(rng, 4)
+        walk_case(ctx, {"n": 4, "family": "minimum_pass", "values": v0, "computer": comp0, "kind": "walk", "_fresh_budget": [1],
+                        "ops": boundcore.make_history(rng, 4, K0, "dirty") + [["compute"], ["compute"]], "_force_fresh": True})
+        ctx.count("dirty_histories")
     for comp in comps:
         fam, values = game_for(rng, 3, comp)
         walk_case(ctx, {"n": 3, "family": fam, "values": values, "computer": comp, "ops": euler_ops(3, rng), "kind": "euler"})
